@@ -115,23 +115,54 @@ def routes_for(schema):
     return ("DataSet.get", "Matrix.get")
 
 
-def call_route(route, text, schema, kwargs, matrix_type, tns=None):
-    """tns: a (pre-populated) TaxonNamespace to read into, or None for the route's default fresh one."""
+class _Stream(io.StringIO):
+    """a text stream whose .name can be set (io.StringIO itself has none)"""
+
+
+SRC_KINDS = (None, "int", "none", "missing", "str")
+
+
+def make_stream(text, src):
+    """File-like source as file= receives it: .name is an int (tempfile.TemporaryFile, os.fdopen), None
+    (SpooledTemporaryFile), absent (StringIO) or a path string."""
+    s = _Stream(text)
+    if src == "int":
+        s.name = 7
+    elif src == "none":
+        s.name = None
+    elif src == "str":
+        s.name = "/some/dir/input.txt"
+    return s
+
+
+# documented reader keyword arguments of the Newick / NEXUS readers, drawn non-default one at a time
+TREE_OPTIONS = [{"store_tree_weights": True}, {"is_parse_jplace_tokens": True}, {"extract_comment_metadata": False},
+                {"terminating_semicolon_required": False}, {"rooting": "force-rooted"}, {"rooting": "default-unrooted"},
+                {"preserve_underscores": True}, {"suppress_edge_lengths": True}, {"suppress_internal_node_taxa": False},
+                {"suppress_leaf_node_taxa": True}, {"store_tree_weights": True, "is_parse_jplace_tokens": True}]
+
+
+def call_route(route, text, schema, kwargs, matrix_type, tns=None, opts=None, src=None):
+    """tns: a (pre-populated) TaxonNamespace to read into, or None for the route's default fresh one.
+    opts: further reader keyword arguments (Newick / NEXUS).  src: None -> data=text, else file=make_stream(text, src)."""
     import dendropy
     extra = {} if tns is None else {"taxon_namespace": tns}
+    if opts and schema in ("newick", "nexus"):
+        extra.update(opts)
+    source = {"data": text} if src is None else {"file": make_stream(text, src)}
     if route == "Tree.get":
-        return dendropy.Tree.get(data=text, schema=schema, **extra)
+        return dendropy.Tree.get(schema=schema, **dict(source, **extra))
     if route == "TreeList.get":
-        return dendropy.TreeList.get(data=text, schema=schema, **extra)
+        return dendropy.TreeList.get(schema=schema, **dict(source, **extra))
     if route == "yield":
-        return list(dendropy.Tree.yield_from_files(files=[io.StringIO(text)], schema=schema, **extra))
+        return list(dendropy.Tree.yield_from_files(files=[make_stream(text, src)], schema=schema, **extra))
     if route == "DataSet.get":
-        return dendropy.DataSet.get(data=text, schema=schema, **dict(kwargs, **extra))
+        return dendropy.DataSet.get(schema=schema, **dict(kwargs, **dict(source, **extra)))
     if route == "Matrix.get":
         cls = getattr(dendropy, MATRIX_CLASS[matrix_type or "dna"])
-        kw = dict(kwargs, **extra)
+        kw = dict(kwargs, **dict(source, **extra))
         kw.pop("data_type", None)
-        return cls.get(data=text, schema=schema, **kw)
+        return cls.get(schema=schema, **kw)
     raise runner.HarnessError("unknown route %s" % route)
 
 
@@ -413,17 +444,32 @@ def recursing_function(exc):
     return max(sorted(counts), key=counts.get) if counts else None
 
 
-def run_route(ctx, route, text, schema, kwargs, matrix_type, dims, valid=False, tns=None, max_rows=None):
+def duplicate_labels(tns):
+    seen, dups = set(), set()
+    for t in tns._taxa:
+        l = t.label.lower() if isinstance(t.label, str) else t.label
+        if l in seen:
+            dups.add(l)
+        seen.add(l)
+    return dups
+
+
+def run_route(ctx, route, text, schema, kwargs, matrix_type, dims, valid=False, tns=None, max_rows=None, opts=None,
+              src=None):
     """Returns (outcome, result or None).  Violations go through ctx.fail with a root-cause key."""
+    route_name = route
     if tns is not None:
-        route_name = route + "[into a namespace of %d taxa]" % len(tns)
-    else:
-        route_name = route
+        route_name += "[into a namespace of %d taxa]" % len(tns)
+    if opts:
+        route_name += "[%s]" % ", ".join("%s=%r" % kv for kv in sorted(opts.items()))
+    if src is not None:
+        route_name += "[file= stream, name %s]" % src
+    pre_dups = duplicate_labels(tns) if tns is not None else set()
     from dendropy.utility.error import DataParseError
     clause = "reader_outcome"
     limit = step_limit(text)
     try:
-        res, events = budget.run(lambda: call_route(route, text, schema, kwargs, matrix_type, tns), limit)
+        res, events = budget.run(lambda: call_route(route, text, schema, kwargs, matrix_type, tns, opts, src), limit)
     except budget.HangDetected as e:
         where = reader_frame(e) or e.hot
         ctx.cls("%s:hang" % schema)
@@ -474,6 +520,14 @@ def run_route(ctx, route, text, schema, kwargs, matrix_type, dims, valid=False, 
                 ctx.cls("%s:tree_%s" % (schema, kind))
                 ctx.fail("returned_tree_wellformed", "C20:%s:tree_%s" % (schema, kind),
                          "route %s returned tree %d in which %s on %r" % (route_name, k, msg, text[:300]))
+    if not (tns is not None and tns.is_case_sensitive):
+        for ns_ in dict((id(t.taxon_namespace), t.taxon_namespace) for t in trees).values():
+            new_dups = duplicate_labels(ns_) - pre_dups
+            if new_dups:
+                ctx.cls("%s:namespace_duplicate_label" % schema)
+                ctx.fail("returned_tree_wellformed", "C20:%s:namespace_duplicate_label" % schema,
+                         "route %s returned trees whose (case-insensitive) taxon namespace holds two taxa labelled %r "
+                         "(labels %r) on %r" % (route_name, sorted(map(str, new_dups))[:3], ns_.labels()[:10], text[:300]))
     use_dims = dims if len(mats) == 1 else None
     for k, m in enumerate(mats):
         for kind, msg in matrix_problems(m, use_dims, max_rows if use_dims is not None else None):
@@ -504,7 +558,7 @@ def unbalanced_newick_statement(text):
     return None
 
 
-def run_text(ctx, text, schema, kwargs, matrix_type, ns=None):
+def run_text(ctx, text, schema, kwargs, matrix_type, ns=None, opts=None, src=None):
     """ns: optional description (see make_namespace) of a pre-populated taxon namespace; every route is then run a
     second time reading into it (a fresh copy per route)."""
     dims = declared_dims(text, schema)
@@ -519,8 +573,13 @@ def run_text(ctx, text, schema, kwargs, matrix_type, ns=None):
     # the bound holds when the namespace read into starts without foreign-made members a row label could match
     ns_bound_ok = ns is not None and ns["mode"] == "labels" and (not ns["labels"] or ns["labels"] == UNRELATED_LABELS)
     for route in routes_for(schema):
-        outcome, _ = run_route(ctx, route, text, schema, kwargs, matrix_type, dims, max_rows=max_rows)
+        outcome, _ = run_route(ctx, route, text, schema, kwargs, matrix_type, dims, max_rows=max_rows, opts=opts,
+                               src=src)
         ctx.cls("%s:%s" % (schema, outcome))
+        if opts and schema in ("newick", "nexus"):
+            ctx.cls("opts:%s:%s" % (",".join(sorted(opts)), outcome))
+        if src is not None:
+            ctx.cls("src:%s:%s" % (src, outcome))
         if bad_stmt is not None and outcome in ("returns", "no_data"):
             ctx.cls("newick:unbalanced_accepted")
             ctx.fail("bad_data_reported", "C20:newick:unbalanced_accepted",
@@ -532,7 +591,7 @@ def run_text(ctx, text, schema, kwargs, matrix_type, ns=None):
                 ctx.cls("ns:%s:not_built" % ns["mode"])
                 continue
             outcome, _ = run_route(ctx, route, text, schema, kwargs, matrix_type, dims, tns=tns,
-                                   max_rows=max_rows if ns_bound_ok else None)
+                                   max_rows=max_rows if ns_bound_ok else None, opts=opts)
             ctx.cls("ns:%s:%s:%s" % (ns["mode"], schema, outcome))
 
 
